@@ -13,7 +13,7 @@ theorem translated_bin2dec_eq (x : List Nat) :
     Translated.bin2dec (x.map Int.ofNat) = ((OQ.C09.bin2dec x : Nat) : Int) := by
   have h := fold_state (x.map Int.ofNat) x.length
   simp only [List.length_map] at h
-  have h2 := congrArg Prod.snd h
+  have h2 := congrArg Prod.fst h
   rw [littleEndianSum] at h2
   simp only at h2
   rw [← h2]
